@@ -217,15 +217,28 @@ func TestCheck(t *testing.T) {
 					continue
 				}
 				r.Eval(key, nm.label != "self")
-				data, err := model.MakeIngestRequest(nm.id.ID, signer.Priv, a.mh, a.ctx, a.md, a.addrs)
-				if err != nil {
-					r.Violation("ingest:make-error", key, err.Error(), nil)
-					continue
-				}
+				// what the request is built from is written down before the
+				// call (the arguments stay the caller's: the constructor gets
+				// private copies of them, and they are compared afterwards)
 				want := ingestFields(&model.IngestRequest{Multihash: a.mh, ContextID: a.ctx, Metadata: a.md, Addrs: a.addrs})
 				if len(a.ctx) == 0 || len(a.md) == 0 {
 					// JSON turns empty into null/nil; compare through the same formatting
 					want = fmt.Sprintf("mh=%x ctx=%x md=%x addrs=%v", []byte(a.mh), a.ctx, a.md, a.addrs)
+				}
+				argMh, argCtx, argMd := append(multihash.Multihash(nil), a.mh...), append([]byte(nil), a.ctx...), append([]byte(nil), a.md...)
+				var argAddrs []string
+				if a.addrs != nil {
+					argAddrs = append([]string{}, a.addrs...)
+				}
+				argsBefore := fmt.Sprintf("mh=%x ctx=%x md=%x addrs=%q", []byte(argMh), argCtx, argMd, argAddrs)
+				data, err := model.MakeIngestRequest(nm.id.ID, signer.Priv, argMh, argCtx, argMd, argAddrs)
+				if err != nil {
+					r.Violation("ingest:make-error", key, err.Error(), nil)
+					continue
+				}
+				if after := fmt.Sprintf("mh=%x ctx=%x md=%x addrs=%q", []byte(argMh), argCtx, argMd, argAddrs); after != argsBefore {
+					r.Violation("ingest:constructor-changed-its-arguments", key, fmt.Sprintf("before %s\nafter  %s", argsBefore, after), nil)
+					continue
 				}
 				expect(key, "ingest", data, nm.label == "self", nm.id.ID, want, "foreign-signer", "it was sealed by "+signer.ID.String()+", not by the provider it names")
 				if nm.label == "self" {
